@@ -110,6 +110,15 @@ struct Case {
     /// codec into STREAM mode
     #[serde(default)]
     req_mode: String,
+    /// resp: what the handler's stream body does when it is polled AFTER it returned None:
+    /// "" (answers None again) | "pend" (answers Pending forever, waking itself) | "panic" (as
+    /// `futures::stream::unfold` does).  Every such poll is counted.
+    #[serde(default)]
+    after_end: String,
+    /// dec: the values of the request's Content-Encoding fields, in order (chars are Latin-1 bytes);
+    /// None = one field with the canonical token of `enc`
+    #[serde(default)]
+    ce_values: Option<Vec<String>>,
 }
 
 fn runs(len: usize, seed: u64) -> Vec<u8> {
@@ -327,6 +336,8 @@ struct ChunkBody {
     /// polls after the end (the encoder may poll a finished body again)
     polls_after_end: Rc<RefCell<usize>>,
     ended: bool,
+    /// "" | "pend" | "panic": see Case::after_end
+    after_end: String,
 }
 impl MessageBody for ChunkBody {
     type Error = std::io::Error;
@@ -334,15 +345,23 @@ impl MessageBody for ChunkBody {
         self.size
     }
     fn poll_next(mut self: Pin<&mut Self>, cx: &mut Context<'_>) -> Poll<Option<Result<Bytes, Self::Error>>> {
+        if self.ended {
+            *self.polls_after_end.borrow_mut() += 1;
+            match self.after_end.as_str() {
+                "pend" => {
+                    cx.waker().wake_by_ref();
+                    return Poll::Pending;
+                }
+                "panic" => panic!("the handler's body stream was polled after it had returned None"),
+                _ => return Poll::Ready(None),
+            }
+        }
         if self.pend && !self.parked {
             self.parked = true;
             cx.waker().wake_by_ref();
             return Poll::Pending;
         }
         self.parked = false;
-        if self.ended {
-            *self.polls_after_end.borrow_mut() += 1;
-        }
         match self.items.pop_front() {
             Some(b) => Poll::Ready(Some(Ok(b))),
             None => {
@@ -530,6 +549,7 @@ fn handler_response(c: &Case, body: Vec<u8>, chunks: Vec<Vec<u8>>, after: Rc<Ref
             parked: false,
             polls_after_end: after,
             ended: false,
+            after_end: c.after_end.clone(),
         }),
     }
 }
@@ -559,15 +579,34 @@ async fn run_resp(c: &Case) -> CaseOut {
     let mut got: Vec<Vec<u8>> = vec![];
     let mut err = false;
     let mut guard = 0;
+    // a body that pends (waking itself) after its end would spin for ever if it is polled again:
+    // the number of polls of the answer's body is bounded
+    let polls = Rc::new(RefCell::new(0usize));
+    let poll_limit = 40 * (chunks.len() + 8);
+    let mut hang = false;
     loop {
         guard += 1;
-        match poll_fn(|cx| body_stream.as_mut().poll_next(cx)).await {
-            Some(Ok(b)) => got.push(b.to_vec()),
-            Some(Err(_)) => {
+        let p2 = polls.clone();
+        let item = poll_fn(|cx| {
+            *p2.borrow_mut() += 1;
+            if *p2.borrow() > poll_limit {
+                return Poll::Ready(Err(()));
+            }
+            body_stream.as_mut().poll_next(cx).map(Ok)
+        })
+        .await;
+        match item {
+            Err(()) => {
+                hang = true;
                 err = true;
                 break;
             }
-            None => break,
+            Ok(Some(Ok(b))) => got.push(b.to_vec()),
+            Ok(Some(Err(_))) => {
+                err = true;
+                break;
+            }
+            Ok(None) => break,
         }
         // Encoder emits at most one chunk per body chunk plus the finish chunk: more polls than
         // that without reaching the end is the implementation not terminating, not a harness limit
@@ -576,9 +615,14 @@ async fn run_resp(c: &Case) -> CaseOut {
             break;
         }
     }
+    // polls of the handler's body after ITS end, up to the moment the consumer saw the answer's end
+    let late_polls = *after_end.borrow();
+    // polling the answer again after its end is the consumer's doing: only done with a body that
+    // tolerates it
+    let n_after = if c.after_end.is_empty() { 3 } else { 0 };
     let mut after: Vec<&'static str> = vec![];
     if !err {
-        for _ in 0..3 {
+        for _ in 0..n_after {
             after.push(match poll_fn(|cx| body_stream.as_mut().poll_next(cx)).await {
                 None => "end",
                 Some(Ok(_)) => "chunk",
@@ -603,8 +647,14 @@ async fn run_resp(c: &Case) -> CaseOut {
     }
     let concat: Vec<u8> = got.concat();
     let handler_ce = c.ce.clone();
+    if hang {
+        fail(format!("the body stream did not end within {poll_limit} polls (the handler's body was polled {late_polls} time(s) after its end)"));
+    }
     if err {
         fail("the body stream returned an error / did not end".into());
+    }
+    if late_polls > 0 {
+        fail(format!("the handler's body was polled {late_polls} time(s) after it had returned None, before the answer's stream reported its end"));
     }
     if after.iter().any(|a| *a != "end") {
         fail(format!("after the end of the stream further polls gave {after:?}"));
@@ -694,7 +744,7 @@ async fn run_resp(c: &Case) -> CaseOut {
         (_, n) => format!("(SzSized {n})"),
     };
     let coq_case = format!(
-        "CResp {} {} {} {} {} {} {} {} {} {} {} []",
+        "CResp {} {} {} {} {} {} {} {} {} {} {} [] {}%nat",
         ae_term,
         coq_bool(compressible(&c.ctype)),
         c.status,
@@ -705,7 +755,8 @@ async fn run_resp(c: &Case) -> CaseOut {
         size_term,
         coq_list(&chunks, |x| coq_bchunk(x)),
         coq_list(&takes, |x| coq_tok(x)),
-        coq_tok(&finish)
+        coq_tok(&finish),
+        n_after
     );
     let v_size = match r_size {
         BodySize::None => V::t0("none"),
@@ -723,11 +774,12 @@ async fn run_resp(c: &Case) -> CaseOut {
                 V::L(got.iter().map(|g| v_tok(g)).collect()),
                 V::b(!err),
                 V::L(after.iter().map(|a| V::t0(a)).collect()),
+                V::n(late_polls as u64),
             ],
         )
     };
     let show = format!(
-        "{} ce={:?} vary={} size={:?} chunks={} bytes={} polls_after_body_end={}",
+        "{} ce={:?} vary={} size={:?} chunks={} bytes={} late_body_polls={late_polls} polls_after_body_end={}",
         r_status,
         r_ce.as_ref().map(|v| String::from_utf8_lossy(v).to_string()),
         r_vary.len(),
@@ -748,6 +800,7 @@ async fn run_resp(c: &Case) -> CaseOut {
         format!("bodykind:{}", c.body.kind),
         format!("sched:{}", if c.pend { "pending" } else { "ready" }),
         format!("chunk-max:{}", match chunks.iter().map(|x| x.len()).max().unwrap_or(0) { 0..=1023 => "<1024 (in place)", _ => ">=1024 (blocking pool)" }),
+        format!("after-end:{}", if c.after_end.is_empty() { "none-again" } else { c.after_end.as_str() }),
     ];
     CaseOut {
         coq_case: Some(coq_case),
@@ -1092,7 +1145,38 @@ async fn run_dec(c: &Case) -> CaseOut {
     let damaged = c.truncate.is_some() || c.corrupt.is_some();
     let chunks = if wire.is_empty() && c.cuts.is_empty() && c.every.is_none() { vec![] } else { segments(c, &wire) };
     let s = WireStream { items: chunks.iter().map(|x| Bytes::from(x.clone())).collect(), pend: c.pend, parked: false };
-    let mut d = Decoder::new(s, content_encoding(&c.enc));
+    // the request's Content-Encoding fields, as sent
+    let values: Vec<Vec<u8>> = match &c.ce_values {
+        Some(v) => v.iter().map(|s| s.chars().map(|ch| ch as u32 as u8).collect()).collect(),
+        None => vec![(match c.enc.as_str() { "unknown" => "x-unknown", e => e }).as_bytes().to_vec()],
+    };
+    let mut headers = actix_http::header::HeaderMap::new();
+    for v in &values {
+        match actix_http::header::HeaderValue::from_bytes(v) {
+            Ok(hv) => headers.append(header::CONTENT_ENCODING, hv),
+            Err(_) => {
+                return CaseOut {
+                    impl_show: "header value not representable".into(),
+                    oracle_ok: true,
+                    tags: vec!["kind:dec".into(), "skipped:header-value".into()],
+                    ..Default::default()
+                }
+            }
+        }
+    }
+    // what the header SAYS (own reading of RFC 7231 3.1.2.1: one content-coding token, compared
+    // case-insensitively, optional whitespace around a field value is not part of it)
+    let said: String = match values.first() {
+        Some(v) => {
+            let t = String::from_utf8_lossy(v).trim_matches(|ch| ch == ' ' || ch == '\t').to_ascii_lowercase();
+            if ["gzip", "deflate", "br", "zstd"].contains(&t.as_str()) { t } else { "identity".into() }
+        }
+        None => "identity".into(),
+    };
+    let sent_as = if ["gzip", "deflate", "br", "zstd"].contains(&c.enc.as_str()) { c.enc.clone() } else { "identity".to_string() };
+    let consistent = said == sent_as;
+    let _ = content_encoding;
+    let mut d = Decoder::from_headers(s, &headers);
     let mut got: Vec<Option<Vec<u8>>> = vec![];
     let mut errored = false;
     let mut runaway = false;
@@ -1127,23 +1211,23 @@ async fn run_dec(c: &Case) -> CaseOut {
     let mut why = String::new();
     if runaway {
         why = "the decoder emitted more items than its wire chunks and feed_eof allow: the stream does not end".into();
-    } else if !damaged {
+    } else if !damaged && consistent {
         if errored {
-            why = "valid encoded body produced an error".into();
+            why = format!("valid body sent with Content-Encoding {:?} produced an error", c.ce_values);
         } else if delivered != body {
-            why = format!("delivered {} bytes, original has {}", delivered.len(), body.len());
+            why = format!("body sent with Content-Encoding {:?} ({said}): delivered {} bytes, original has {}", values.first().map(|v| String::from_utf8_lossy(v).to_string()), delivered.len(), body.len());
         }
     }
     if why.is_empty() && after.iter().any(|a| *a != "end") {
         why = format!("after the end of the stream further polls gave {after:?}");
     }
-    if why.is_empty() && got.iter().any(|g| matches!(g, Some(b) if b.is_empty())) && TwinDec::new(&c.enc).is_some() {
+    if why.is_empty() && got.iter().any(|g| matches!(g, Some(b) if b.is_empty())) && TwinDec::new(&said).is_some() {
         why = "decoder emitted an empty chunk".into();
     }
     // twin run at library level
     let mut feeds: Vec<Option<Vec<u8>>> = vec![];
     let mut eof: Option<Vec<u8>> = Some(vec![]);
-    let has = match TwinDec::new(&c.enc) {
+    let has = match TwinDec::new(&said) {
         Some(mut t) => {
             let mut failed = false;
             for ch in &chunks {
@@ -1165,7 +1249,7 @@ async fn run_dec(c: &Case) -> CaseOut {
     };
     let coq_case = format!(
         "CDec {} {} {} {} []",
-        coq_bool(has),
+        coq_list(&values, |v| coq_bytes(v)),
         coq_list(&chunks, |x| coq_bchunk(x)),
         coq_list(&feeds, |f| coq_opt(f, |x| coq_tok(x))),
         coq_opt(&eof, |x| coq_tok(x))
@@ -1190,6 +1274,16 @@ async fn run_dec(c: &Case) -> CaseOut {
         tags: vec![
             "kind:dec".into(),
             format!("coding:{}", c.enc),
+            format!("header:{}", match values.first() {
+                None => "absent",
+                Some(v) if v.iter().any(|b| *b >= 0x80) => "non-ascii",
+                Some(v) if said == "identity" && !v.eq_ignore_ascii_case(b"identity") => "other",
+                Some(v) if v.iter().any(|b| *b == b' ' || *b == b'\t') && v.iter().any(|b| b.is_ascii_uppercase()) => "token, mixed case + ows",
+                Some(v) if v.iter().any(|b| *b == b' ' || *b == b'\t') => "token + ows",
+                Some(v) if v.iter().any(|b| b.is_ascii_uppercase()) => "token, mixed case",
+                Some(_) => "token, lower case",
+            }),
+            format!("fields:{}", values.len().min(2)),
             format!("chunks:{}", match chunks.len() { 0 => "0", 1 => "1", 2..=8 => "2-8", _ => "9+" }),
             format!("wire:{}", if damaged { "damaged" } else { "valid" }),
             format!("sched:{}", if c.pend { "pending" } else { "ready" }),
@@ -1375,6 +1469,9 @@ fn gen_case(rng: &mut Rng, thorough: bool) -> Case {
             (c.cuts, c.every) = gen_segmentation(rng, len);
             c.pend = rng.chance(1, 3);
             c.no_chunking = rng.chance(1, 4);
+            if rng.chance(1, 3) {
+                c.after_end = rng.pick(&["pend", "panic"]).to_string();
+            }
             // a single large incompressible chunk (the compressor's output buffer fills inside one write)
             if rng.chance(1, 16) {
                 c.ae = Some(rng.pick(&["gzip", "deflate", "br", "zstd"]).to_string());
@@ -1389,6 +1486,7 @@ fn gen_case(rng: &mut Rng, thorough: bool) -> Case {
             // the same response also over a real connection
             if rng.chance(1, 4) && !matches!(c.status, 101 | 204 | 206) && c.ae.as_ref().map_or(true, |a| parse_ae(a).is_some() && !a.trim().is_empty()) {
                 c.kind = "wire".into();
+                c.after_end = String::new();
                 c.no_chunking = rng.chance(1, 2);
                 // CONNECT / upgrade requests put the h1 codec into STREAM mode; HTTP/2 has no chunking
                 match rng.below(6) {
@@ -1414,6 +1512,42 @@ fn gen_case(rng: &mut Rng, thorough: bool) -> Case {
                 } else {
                     c.truncate = Some(rng.range(1, wire_len as u64 - 1) as usize);
                 }
+            }
+            // how the header spells the coding: tokens are case-insensitive, optional whitespace
+            // may surround the value, several fields may be present (the first decides)
+            if rng.chance(2, 3) {
+                let canon = if c.enc == "unknown" { "x-unknown".to_string() } else { c.enc.clone() };
+                let mut tok: String = match rng.below(4) {
+                    0 => canon.to_ascii_uppercase(),
+                    1 => canon.chars().map(|ch| if rng.chance(1, 2) { ch.to_ascii_uppercase() } else { ch }).collect(),
+                    2 => { let mut t = canon.clone(); if let Some(f) = t.get_mut(0..1) { f.make_ascii_uppercase(); } t }
+                    _ => canon.clone(),
+                };
+                if rng.chance(1, 3) {
+                    let ws = |rng: &mut Rng| -> String { (0..rng.below(3)).map(|_| if rng.chance(1, 3) { '\t' } else { ' ' }).collect() };
+                    tok = format!("{}{}{}", ws(rng), tok, ws(rng));
+                }
+                let mut vals = vec![tok];
+                if rng.chance(1, 8) {
+                    vals.push(rng.pick(&["gzip", "br", "identity", "zstd"]).to_string());
+                }
+                c.ce_values = Some(vals);
+            }
+            // values that name no single supported coding: the body is sent as it is
+            if rng.chance(1, 12) {
+                c.enc = "identity".into();
+                c.corrupt = None;
+                c.truncate = None;
+                c.ce_values = Some(match rng.below(7) {
+                    0 => vec![],
+                    1 => vec!["gzip, br".into()],
+                    2 => vec!["gzipp".into()],
+                    3 => vec!["x-gzip".into()],
+                    4 => vec!["gzip\u{e9}".into()],
+                    5 => vec!["".into()],
+                    _ => vec!["g zip".into(), "gzip".into()],
+                });
+                (c.cuts, c.every) = gen_segmentation(rng, c.body.len);
             }
         }
         6..=8 => {
